@@ -1333,3 +1333,200 @@ pub fn parse_temp_id(id: &str) -> Option<(char, usize)> {
     }
     rest.parse::<usize>().ok().map(|n| (letter, n))
 }
+
+// ------------------------------------------------------------------ C06: related text
+
+pub fn related_operators() -> Vec<TextSelectionOperator> {
+    let mut v = Vec::new();
+    for all in [false, true] {
+        for negate in [false, true] {
+            if !all {
+                // Equals with the 'all' modifier is documented as meaningless ("would be fairly useless") and is not evaluated
+                v.push(TextSelectionOperator::Equals { all, negate });
+            }
+            v.push(TextSelectionOperator::Overlaps { all, negate });
+            v.push(TextSelectionOperator::Embeds { all, negate });
+            v.push(TextSelectionOperator::SameBegin { all, negate });
+            v.push(TextSelectionOperator::SameEnd { all, negate });
+            for limit in [None, Some(0), Some(1), Some(3)] {
+                v.push(TextSelectionOperator::Embedded { all, negate, limit });
+                v.push(TextSelectionOperator::Before { all, negate, limit });
+                v.push(TextSelectionOperator::After { all, negate, limit });
+            }
+            for allow_whitespace in [false, true] {
+                v.push(TextSelectionOperator::Precedes { all, negate, allow_whitespace });
+                v.push(TextSelectionOperator::Succeeds { all, negate, allow_whitespace });
+            }
+        }
+    }
+    v
+}
+
+fn op_name(op: &TextSelectionOperator) -> String {
+    let mut s = format!("{:?}", op);
+    s.retain(|c| !c.is_whitespace());
+    s
+}
+
+fn op_key(op: &TextSelectionOperator) -> String {
+    // stable key without instance data: operator name + which modifiers are set
+    let (name, all, negate, extra) = match op {
+        TextSelectionOperator::Equals { all, negate } => ("equals", all, negate, String::new()),
+        TextSelectionOperator::Overlaps { all, negate } => ("overlaps", all, negate, String::new()),
+        TextSelectionOperator::Embeds { all, negate } => ("embeds", all, negate, String::new()),
+        TextSelectionOperator::Embedded { all, negate, limit } => ("embedded", all, negate, if limit.is_some() { "+limit".to_string() } else { String::new() }),
+        TextSelectionOperator::Before { all, negate, limit } => ("before", all, negate, if limit.is_some() { "+limit".to_string() } else { String::new() }),
+        TextSelectionOperator::After { all, negate, limit } => ("after", all, negate, if limit.is_some() { "+limit".to_string() } else { String::new() }),
+        TextSelectionOperator::Precedes { all, negate, allow_whitespace } => ("precedes", all, negate, if *allow_whitespace { "+ws".to_string() } else { String::new() }),
+        TextSelectionOperator::Succeeds { all, negate, allow_whitespace } => ("succeeds", all, negate, if *allow_whitespace { "+ws".to_string() } else { String::new() }),
+        TextSelectionOperator::SameBegin { all, negate } => ("samebegin", all, negate, String::new()),
+        TextSelectionOperator::SameEnd { all, negate } => ("sameend", all, negate, String::new()),
+        TextSelectionOperator::InSet { all, negate } => ("inset", all, negate, String::new()),
+        TextSelectionOperator::SameRange { all, negate } => ("samerange", all, negate, String::new()),
+    };
+    format!("{}{}{}{}", name, if *all { "+all" } else { "" }, if *negate { "+negate" } else { "" }, extra)
+}
+
+impl<'a> Checker<'a> {
+    /// related_text from single selections (known and unknown), from annotations and from sets
+    /// must equal a brute force over all known selections of the resource using the library's own
+    /// relation test; each result once.
+    pub fn check_related_text(&mut self, sample_seed: u64) {
+        let store = self.store;
+        let m = self.model;
+        let ops = related_operators();
+        let mut rng = crate::rng::Rng::new(sample_seed);
+        for (ru, r) in m.resources.iter().enumerate().filter(|(_, r)| r.live) {
+            if self.full() {
+                return;
+            }
+            let Some(res) = store.resource(rh(r.handle)) else { continue };
+            let len = r.text.len();
+            // all known selections, from the store itself
+            let known: Vec<(usize, usize, usize)> = match catch(|| {
+                res.as_ref()
+                    .textselections_unsorted()
+                    .map(|t| (t.handle().map(|h| h.as_usize()).unwrap_or(usize::MAX), t.begin(), t.end()))
+                    .collect::<Vec<_>>()
+            }) {
+                Ok(v) => v,
+                Err(_) => continue,
+            };
+            // references: every known selection (sampled when many) + a few unknown ones
+            let mut refs: Vec<(usize, usize)> = known.iter().map(|(_, b, e)| (*b, *e)).collect();
+            while refs.len() > 6 {
+                let i = rng.below(refs.len());
+                refs.remove(i);
+            }
+            for _ in 0..3 {
+                let b = rng.below(len + 1);
+                let e = b + rng.below(len - b + 1);
+                refs.push((b, e));
+            }
+            refs.push((0, len));
+            refs.push((len, len));
+            for (b, e) in refs {
+                if self.full() {
+                    return;
+                }
+                let offset = Offset::simple(b, e);
+                let Ok(Ok(reference)) = catch(|| res.textselection(&offset)) else { continue };
+                let ref_handle = reference.handle().map(|h| h.as_usize());
+                for op in ops.iter() {
+                    let ctx = format!("resource {} ref {}..{}{} op {}", r.id, b, e, if ref_handle.is_some() { "" } else { " (unbound)" }, op_name(op));
+                    let key = format!("related_text.selection.{}", op_key(op));
+                    let equals_plain = matches!(op, TextSelectionOperator::Equals { all: false, negate: false });
+                    let equals_all = matches!(op, TextSelectionOperator::Equals { all: true, negate: false });
+                    // brute force with the library's own predicate
+                    let expected = catch(|| {
+                        let mut v: Vec<(usize, usize)> = Vec::new();
+                        for (h, kb, ke) in known.iter() {
+                            let is_self = Some(*h) == ref_handle;
+                            if is_self && !equals_plain {
+                                continue;
+                            }
+                            let cand = res.textselection(&Offset::simple(*kb, *ke)).expect("known selection");
+                            if reference.test(op, &cand) {
+                                v.push((*kb, *ke));
+                            }
+                        }
+                        v.sort();
+                        v
+                    });
+                    let Ok(expected) = expected else {
+                        continue; // a panic inside the predicate itself is C13's business
+                    };
+                    let got = self.guarded("C06", &key, &ctx, || {
+                        reference.related_text(*op).map(|t| (t.begin(), t.end())).collect::<Vec<_>>()
+                    });
+                    if let Some(got) = got {
+                        let mut g = got.clone();
+                        g.sort();
+                        let mut e2 = expected.clone();
+                        if equals_all {
+                            // whether the reference itself is returned is not specified for this variant
+                            g.retain(|x| *x != (b, e));
+                            e2.retain(|x| *x != (b, e));
+                        }
+                        if let Some((class, d)) = diff_class(&e2, &g) {
+                            self.push("C06", class, &key, format!("{}: {}", ctx, d));
+                        }
+                    }
+                }
+            }
+            // sets: the text of annotations with all their text in this resource
+            for (au, a) in m.annotations.iter().enumerate().filter(|(_, a)| a.live) {
+                if self.full() {
+                    return;
+                }
+                let targets = m.ann_text_targets(au);
+                if targets.is_empty() || targets.iter().any(|t| t.res != ru) {
+                    continue;
+                }
+                if !rng.chance(1, 3) {
+                    continue;
+                }
+                let Some(item) = store.annotation(ah(a.handle)) else { continue };
+                let member: BTreeSet<(usize, usize)> = targets.iter().map(|t| (t.b, t.e)).collect();
+                for op in ops.iter() {
+                    let ctx = format!("annotation {} on {} op {}", a.handle, r.id, op_name(op));
+                    let key = format!("related_text.annotation.{}", op_key(op));
+                    let equals_any = matches!(op, TextSelectionOperator::Equals { negate: false, .. });
+                    let expected = catch(|| {
+                        let set = item.textselectionset().expect("annotation has text in one resource");
+                        let mut v: Vec<(usize, usize)> = Vec::new();
+                        for (_, kb, ke) in known.iter() {
+                            let cand = res.textselection(&Offset::simple(*kb, *ke)).expect("known selection");
+                            if set.test(op, &cand) {
+                                v.push((*kb, *ke));
+                            }
+                        }
+                        v.sort();
+                        v
+                    });
+                    let Ok(expected) = expected else { continue };
+                    let got = self.guarded("C06", &key, &ctx, || item.related_text(*op).map(|t| (t.begin(), t.end())).collect::<Vec<_>>());
+                    if let Some(got) = got {
+                        let mut g = got.clone();
+                        g.sort();
+                        let mut e2 = expected.clone();
+                        // members of the reference set: returned only by plain equality; for the
+                        // other equality variants unspecified
+                        if !matches!(op, TextSelectionOperator::Equals { all: false, negate: false }) {
+                            if equals_any {
+                                g.retain(|x| !member.contains(x));
+                            }
+                            e2.retain(|x| !member.contains(x));
+                        } else {
+                            // plain equality returns the reference itself: for a set, its members
+                            e2 = member.iter().cloned().collect();
+                        }
+                        if let Some((class, d)) = diff_class(&e2, &g) {
+                            self.push("C06", class, &key, format!("{}: {}", ctx, d));
+                        }
+                    }
+                }
+            }
+        }
+    }
+}
